@@ -215,11 +215,15 @@ def preemptions_before(points, i):
     return n
 
 
-def explore(make_bodies, is_point, bound, granularity='line', on_execution=None, max_executions=None):
+def explore(make_bodies, is_point, bound, granularity='line', on_execution=None, max_executions=None,
+            roots=None, children_only=False):
     """Stateless DFS. make_bodies() builds fresh bodies (and resets shared state) for each execution.
-    on_execution(execution) is the oracle hook. Returns statistics."""
-    stats = {'executions': 0, 'max_points': 0, 'capped': False, 'switch_points_total': 0}
-    stack = [([], None)]
+    on_execution(execution) is the oracle hook. Returns statistics.
+    roots: [(prefix, expected enabled sets)] to start from (default: the empty prefix).
+    children_only: run just the roots and return their children in stats['children'] (used to split the
+    exploration tree over forked workers)."""
+    stats = {'executions': 0, 'max_points': 0, 'capped': False, 'switch_points_total': 0, 'children': []}
+    stack = list(roots) if roots is not None else [([], None)]
     while stack:
         prefix, expect = stack.pop()
         if max_executions and stats['executions'] >= max_executions:
@@ -241,5 +245,9 @@ def explore(make_bodies, is_point, bound, granularity='line', on_execution=None,
             if cost > bound:
                 continue
             for alt in range(1, len(en)):
-                stack.append(([p[2] for p in ex.points[:i]] + [alt], rec[:i + 1]))
+                child = ([p[2] for p in ex.points[:i]] + [alt], rec[:i + 1])
+                if children_only:
+                    stats['children'].append(child)
+                else:
+                    stack.append(child)
     return stats
